@@ -50,7 +50,7 @@ M("C02", "requeue-at-tail", S, "self._message_queue.appendleft(", "self._message
 M("C02", "expiry-recomputed", S, "                        expiry=entry.expiry,\n", "                        expiry=self._loop.time() + 30.0,\n")
 M("C02", "always-non-idempotent", A5, "        if power == ac_ctrl_msg.AcPowerControl.TOGGLE:", "        if power != ac_ctrl_msg.AcPowerControl.UNCHANGED:")
 T(["C02", "C16", "C01"], "flipped-expiry-compare", S, "if self._loop.time() < entry.expiry:", "if entry.expiry > self._loop.time():")
-T(["C02"], "budget-positive-test", S, "            if entry.retries_remaining == 0:\n                self._log_dropped_message(entry, \"max-retries\")\n            else:", "            if entry.retries_remaining <= 0:\n                self._log_dropped_message(entry, \"max-retries\")\n            else:")
+T(["C02"], "budget-positive-test", S, "            if entry.retries_remaining == 0:\n                self._log_dropped_message(entry, \"max-retries\")\n            elif", "            if entry.retries_remaining <= 0:\n                self._log_dropped_message(entry, \"max-retries\")\n            elif")
 
 # ------------------------------------------------------------------------------------------------ C03
 M("C03", "at5-header-no-crc", C5 + "hdr.py", "        data_length = _INTERNAL_HEADER_LENGTH + header.message_length + CRC_LENGTH", "        data_length = _INTERNAL_HEADER_LENGTH + header.message_length")
@@ -116,7 +116,11 @@ M("C07", "reset-without-connect", S, "        await self._disconnect()\n        
 M("C07", "no-retry", S, "            self._schedule(self._connect(), delay=_CONNECT_RETRY_DELAY)", "            pass")
 M("C07", "zero-delay", S, "_CONNECT_RETRY_DELAY = 2.0", "_CONNECT_RETRY_DELAY = 0.0")
 M("C07", "writer-not-closed", S, "            self._writer.close()\n", "")
-M("C07", "subscriber-handler-narrowed", S, "            except Exception:\n                _LOGGER.exception(\"Exception from subscriber\")", "            except ValueError:\n                _LOGGER.exception(\"Exception from subscriber\")")
+M("C07", "subscriber-failure-propagates", S, "        results = await asyncio.gather(*callbacks, return_exceptions=True)\n", "        results = await asyncio.gather(*callbacks)\n")
+M("C07", "subscribers-detached", S, "        results = await asyncio.gather(*callbacks, return_exceptions=True)\n        for result in results:\n            if isinstance(result, Exception):\n                _LOGGER.error(\"Exception from subscriber\", exc_info=result)\n", "        for coro in asyncio.as_completed(callbacks):\n            try:\n                _ = await coro\n            except Exception:\n                _LOGGER.exception(\"Exception from subscriber\")\n")
+M("C15", "subscribers-detached", S, "        results = await asyncio.gather(*callbacks, return_exceptions=True)\n        for result in results:\n            if isinstance(result, Exception):\n                _LOGGER.error(\"Exception from subscriber\", exc_info=result)\n", "        for coro in asyncio.as_completed(callbacks):\n            try:\n                _ = await coro\n            except Exception:\n                _LOGGER.exception(\"Exception from subscriber\")\n")
+M("C15", "requeue-after-close", S, "            elif not self.is_open:\n                # The socket was closed while this message was being written.\n                # It must not be carried over into a later session.\n                self._log_dropped_message(entry, \"closed\")\n", "")
+T(["C07", "C12", "C15"], "subscribers-sequential", S, "        results = await asyncio.gather(*callbacks, return_exceptions=True)\n        for result in results:\n            if isinstance(result, Exception):\n                _LOGGER.error(\"Exception from subscriber\", exc_info=result)\n", "        for callback in callbacks:\n            try:\n                await callback\n            except Exception:\n                _LOGGER.exception(\"Exception from subscriber\")\n")
 M("C07", "closing-test-flipped", S, "if self._writer and not self._writer.is_closing():", "if self._writer and self._writer.is_closing():")
 M("C07", "encode-error-resets", S, "            _LOGGER.exception(\"Encoding error for message %s\", entry.message)\n", "            _LOGGER.exception(\"Encoding error for message %s\", entry.message)\n            await self.reset_connection()\n")
 M("C07", "wait-closed-unprotected", S, "            with contextlib.suppress(OSError):\n                await self._writer.wait_closed()", "            await self._writer.wait_closed()")
@@ -176,7 +180,9 @@ M("C12", "wrong-identifier", A4, "[s(self.zone_id) for s in self._subscribers]",
 M("C12", "version-always-notifies", A4, "        if old_version != console_version:\n", "        if True:\n")
 M("C12", "no-zone-subscription", A4, "        for zone in self._zones:\n            zone.subscribe(self._zone_updated)\n", "")
 M("C12", "unsubscribe-adds", A4, "    def unsubscribe(self, subscriber: pyairtouch.api.UpdateSubscriber) -> None:\n        self._subscribers.discard(subscriber)", "    def unsubscribe(self, subscriber: pyairtouch.api.UpdateSubscriber) -> None:\n        self._subscribers.add(subscriber)")
-M("C12", "api-handler-narrowed", A5, "        except Exception:\n            _LOGGER.exception(\"Exception from subscriber\")", "        except ValueError:\n            _LOGGER.exception(\"Exception from subscriber\")")
+M("C12", "api-subscriber-failure-propagates", A5, "    results = await asyncio.gather(*callbacks, return_exceptions=True)\n", "    results = await asyncio.gather(*callbacks)\n")
+M("C10", "api-subscriber-failure-propagates", A4, "    results = await asyncio.gather(*callbacks, return_exceptions=True)\n", "    results = await asyncio.gather(*callbacks)\n")
+M("C11", "api-subscriber-failure-propagates", A5, "    results = await asyncio.gather(*callbacks, return_exceptions=True)\n", "    results = await asyncio.gather(*callbacks)\n")
 M("C12", "old-read-after-store", A5, "        old_status = self._zone_status\n        self._zone_status = zone_status\n", "        self._zone_status = zone_status\n        old_status = self._zone_status\n")
 M("C12", "subscribers-a-list", A5, "        self._subscribers: set[pyairtouch.api.AirTouchSubscriber] = set()", "        self._subscribers: list[pyairtouch.api.AirTouchSubscriber] = []")
 
